@@ -740,7 +740,7 @@ impl DdlExecutor {
         }
 
         let index_id =
-            self.create_unique_index(instr.table_id, &instr.index_name, &instr.columns)?;
+            self.create_unique_index(instr.table_id, &instr.index_name, &instr.columns, None)?;
 
         println!("INdice creado con id {index_id}");
 
@@ -1001,8 +1001,10 @@ impl DdlExecutor {
     /// Creates the index backing a PRIMARY KEY / UNIQUE constraint of `relation`.
     ///
     /// `create_unique_index` works on its own copy of the table's catalog entry, so the changes made to
-    /// `relation` so far (constraint list, NOT NULL flags of key columns) are stored first, and `relation`
-    /// is reloaded afterwards: the caller then holds (and may store again) a schema that knows the index.
+    /// `relation` so far (constraint list, NOT NULL flags of key columns) are handed to it and stored
+    /// together with the registration of the index — after the index has been filled, so that a failure
+    /// (existing rows that collide) leaves the table's catalog entry untouched. `relation` is reloaded
+    /// afterwards: the caller then holds (and may store again) a schema that knows the index.
     fn create_constraint_index(
         &mut self,
         relation: &mut Relation,
@@ -1011,15 +1013,12 @@ impl DdlExecutor {
     ) -> RuntimeResult<ObjectId> {
         let table_id = relation.object_id();
         let tree_builder = self.ctx.tree_builder();
-        self.ctx.catalog().update_relation(
+        let index_id = self.create_unique_index(
             table_id,
-            None,
+            index_name,
+            indexed_column_ids,
             Some(relation.schema().clone()),
-            None,
-            &tree_builder,
-            self.ctx.snapshot(),
         )?;
-        let index_id = self.create_unique_index(table_id, index_name, indexed_column_ids)?;
         *relation = self
             .ctx
             .catalog()
@@ -1032,6 +1031,7 @@ impl DdlExecutor {
         table_id: ObjectId,
         index_name: &str,
         indexed_column_ids: &[usize],
+        pending_schema: Option<Schema>,
     ) -> RuntimeResult<ObjectId> {
         let num_keys = indexed_column_ids.len();
         let snapshot = self.ctx.snapshot();
@@ -1041,6 +1041,9 @@ impl DdlExecutor {
             self.ctx
                 .catalog()
                 .get_relation(table_id, &tree_builder, &snapshot)?;
+        if let Some(schema) = pending_schema {
+            *table_relation.schema_mut() = schema;
+        }
 
         let table_root = table_relation.root();
 
@@ -1066,12 +1069,33 @@ impl DdlExecutor {
         let index_root = index_relation.root();
         let index_schema = index_relation.schema().clone();
 
-        let snapshot = self.ctx.snapshot();
+        let snapshot = self.ctx.snapshot().clone();
         let tree_builder = self.ctx.tree_builder();
 
         self.ctx
             .catalog()
             .store_relation(index_relation, &tree_builder, snapshot.xid())?;
+
+        // The index is filled before the table's catalog entry learns of it. If the existing rows
+        // collide the statement fails here: the index relation is dropped again and the table is as it
+        // was. (A catalog entry rewritten by a transaction that then fails is not restored by the
+        // abort alone: the table kept pointing to an index that did not exist, every INSERT failed.)
+        if let Err(err) = self.populate_index(
+            table_root,
+            table_relation.schema(),
+            index_root,
+            &index_schema,
+            indexed_column_ids,
+        ) {
+            let _ = self.ctx.catalog().remove_relation_by_id(
+                object_id,
+                &tree_builder,
+                &snapshot,
+                false,
+                None,
+            );
+            return Err(err);
+        }
 
         {
             let table_schema = table_relation.schema_mut();
@@ -1097,14 +1121,6 @@ impl DdlExecutor {
             None,
             &tree_builder,
             &snapshot,
-        )?;
-
-        self.populate_index(
-            table_root,
-            table_relation.schema(),
-            index_root,
-            &index_schema,
-            indexed_column_ids,
         )?;
 
         Ok(object_id)
